@@ -35,7 +35,7 @@ theorem contains_colon_false (ds : List Char) (h : ∀ c ∈ ds, c.isDigit = tru
   exact (digit_ne _ (h _ this)).1 rfl
 
 theorem sliceEntry_digits (ds : List Char) (h : ∀ c ∈ ds, c.isDigit = true) (hne : ds ≠ []) :
-    sliceEntry ds = some (some (digitsVal ds), some (digitsVal ds)) := by
+    sliceEntry ds = some (.idx (digitsVal ds)) := by
   unfold sliceEntry
   rw [contains_colon_false ds h]
   cases ds with
@@ -45,8 +45,8 @@ theorem sliceEntry_digits (ds : List Char) (h : ∀ c ∈ ds, c.isDigit = true) 
 theorem sliceEntry_colon (da db : List Char) (ha : ∀ c ∈ da, c.isDigit = true)
     (hb : ∀ c ∈ db, c.isDigit = true) :
     sliceEntry (da ++ ':' :: db) =
-      some (if da.isEmpty then none else some (digitsVal da),
-            if db.isEmpty then none else some (digitsVal db)) := by
+      some (.range (if da.isEmpty then none else some (digitsVal da))
+            (if db.isEmpty then none else some (digitsVal db))) := by
   have ht := takeWhile_append_stop (fun c => decide (c ≠ ':')) da ':' db
     (by intro x hx; simpa using (digit_ne x (ha x hx)).1) (by decide)
   unfold sliceEntry
@@ -77,44 +77,33 @@ theorem renderBound_back (a : Option Nat) :
     show (if (toString n).toList.isEmpty = true then none else some (digitsVal (toString n).toList)) = some n
     rw [if_neg h3, h2]
 
-/-- a rendered entry is `renderBound a ++ ":" ++ renderBound b`, or the digits of `n` for `(n, n)` -/
-theorem renderSlicePart_cases (p : Option Nat × Option Nat) :
-    (∃ n, p = (some n, some n) ∧ renderSlicePart p = (toString n).toList) ∨
-    renderSlicePart p = renderBound p.1 ++ ':' :: renderBound p.2 := by
-  obtain ⟨a, b⟩ := p
-  cases a with
-  | none => right; simp [renderSlicePart]
-  | some a =>
-    cases b with
-    | none => right; simp [renderSlicePart]
-    | some b =>
-      by_cases h : a = b
-      · left; subst h; exact ⟨a, rfl, by simp [renderSlicePart]⟩
-      · right; simp [renderSlicePart, h, renderBound]
-
-theorem sliceEntry_render (p : Option Nat × Option Nat) : sliceEntry (renderSlicePart p) = some p := by
-  rcases renderSlicePart_cases p with ⟨n, rfl, h⟩ | h
-  · rw [h, sliceEntry_digits _ (natText_isDigit n) (natText_ne_nil n), digitsVal_natText]
-  · rw [h, sliceEntry_colon _ _ (renderBound_isDigit _) (renderBound_isDigit _),
+theorem sliceEntry_render (p : SliceEntry) : sliceEntry (renderSlicePart p) = some p := by
+  cases p with
+  | idx n =>
+    simp only [renderSlicePart]
+    rw [sliceEntry_digits _ (natText_isDigit n) (natText_ne_nil n), digitsVal_natText]
+  | range a b =>
+    simp only [renderSlicePart]
+    rw [sliceEntry_colon _ _ (renderBound_isDigit _) (renderBound_isDigit _),
       renderBound_back, renderBound_back]
 
 /-- the characters of a rendered entry are digits and `:` -/
-theorem renderSlicePart_chars (p : Option Nat × Option Nat) :
+theorem renderSlicePart_chars (p : SliceEntry) :
     ∀ c ∈ renderSlicePart p, c.isDigit = true ∨ c = ':' := by
   intro c hc
-  rcases renderSlicePart_cases p with ⟨n, rfl, h⟩ | h
-  · rw [h] at hc; exact Or.inl (natText_isDigit n c hc)
-  · rw [h] at hc
-    simp only [List.mem_append, List.mem_cons] at hc
+  cases p with
+  | idx n => exact Or.inl (natText_isDigit n c hc)
+  | range a b =>
+    simp only [renderSlicePart, List.mem_append, List.mem_cons] at hc
     rcases hc with hc | rfl | hc
     · exact Or.inl (renderBound_isDigit _ c hc)
     · exact Or.inr rfl
     · exact Or.inl (renderBound_isDigit _ c hc)
 
-theorem renderSlicePart_ne_nil (p : Option Nat × Option Nat) : renderSlicePart p ≠ [] := by
-  rcases renderSlicePart_cases p with ⟨n, rfl, h⟩ | h
-  · rw [h]; exact natText_ne_nil n
-  · rw [h]; simp
+theorem renderSlicePart_ne_nil (p : SliceEntry) : renderSlicePart p ≠ [] := by
+  cases p with
+  | idx n => exact natText_ne_nil n
+  | range a b => simp [renderSlicePart]
 
 /-! ### the whole slice -/
 
@@ -136,7 +125,7 @@ theorem mem_intercalate_comma (ls : List (List Char)) :
         · left; exact h
         · right; exact ⟨l, by simp [hl], hcl⟩
 
-theorem mapM_sliceEntry_render (l : List (Option Nat × Option Nat)) :
+theorem mapM_sliceEntry_render (l : List SliceEntry) :
     (l.map renderSlicePart).mapM sliceEntry = some l := by
   induction l with
   | nil => rfl
@@ -144,7 +133,7 @@ theorem mapM_sliceEntry_render (l : List (Option Nat × Option Nat)) :
 
 /-- the slice body (entries joined by commas): made of digits, `:` and `,`, non-empty, and split at
     the commas it gives back the rendered entries -/
-theorem sliceBody_spec (l : List (Option Nat × Option Nat)) (hl : l ≠ []) :
+theorem sliceBody_spec (l : List SliceEntry) (hl : l ≠ []) :
     let body := [','].intercalate (l.map renderSlicePart)
     (∀ c ∈ body, (decide (c.isDigit = true ∨ c = ':' ∨ c = ',')) = true) ∧ body ≠ [] ∧
       body.splitOn ',' = l.map renderSlicePart := by
@@ -177,7 +166,7 @@ theorem sliceBody_spec (l : List (Option Nat × Option Nat)) (hl : l ≠ []) :
       exact renderSlicePart_ne_nil p h2
 
 /-- **the slice parser inverts the slice renderer**, whatever follows the closing bracket -/
-theorem parseSlice_render (l : List (Option Nat × Option Nat)) (hl : l ≠ []) (more : List Char) :
+theorem parseSlice_render (l : List SliceEntry) (hl : l ≠ []) (more : List Char) :
     parseSlice (renderSlice l ++ more) = some (l, more) := by
   obtain ⟨hch, hne, hsp⟩ := sliceBody_spec l hl
   have ht := takeWhile_append_stop (fun c => decide (c.isDigit = true ∨ c = ':' ∨ c = ','))
